@@ -249,6 +249,21 @@ def run_batch(pid, tier, verif_seed, nruns, nworkers, max_wall):
     if mismatches:
         lines.append(f"HARNESS-ERROR determinism mismatch on run seeds {mismatches[:5]}")
         rc = 2
+        # diagnose: execute the first such seed three more times and show where the logs part
+        try:
+            seed0 = mismatches[0]
+            logs = [runner.run_job({"pid": pid, "run_seed": seed0, "tier": tier, "want_events": True}, timeout) for _ in range(3)]
+            digs = [x.get("digest") for x in logs]
+            lines.append(f"  seed {seed0}: first-pass digest {first.get(seed0)}, three fresh executions {digs}")
+            a = json.dumps(logs[0].get("events"), sort_keys=True, default=str)
+            for other in logs[1:]:
+                b = json.dumps(other.get("events"), sort_keys=True, default=str)
+                if a != b:
+                    k = next(i for i in range(min(len(a), len(b))) if a[i] != b[i])
+                    lines.append(f"  logs part at char {k}: ...{a[max(0, k - 200):k + 100]!r} VS ...{b[max(0, k - 60):k + 100]!r}")
+                    break
+        except Exception as exc:  # noqa: BLE001 - diagnostics only
+            lines.append(f"  (diagnosis failed: {exc})")
     if agg["harness_errors"]:
         for he in agg["harness_errors"][:5]:
             lines.append(f"HARNESS-ERROR run_seed={he.get('run_seed')} {he.get('error')}")
